@@ -274,6 +274,7 @@ func checkC05(p *core.Program, r *core.Report) {
 
 	// ------------------------------------------------------------------ R4
 	c05R4(p, r)
+	c05R7(p, r)
 }
 
 // counterFlowsOnly: v is the counter phi itself, the increment, or a phi of those.
@@ -519,6 +520,7 @@ func c05R4(p *core.Program, r *core.Report) {
 		a := cs.Common().Args
 		val := a[len(a)-1]
 		okTr := false
+		extraCond := ""
 		core.EachInstr(cs.Caller, false, func(_ *ssa.Function, in ssa.Instruction) {
 			st, ok := in.(*ssa.Store)
 			if !ok {
@@ -530,9 +532,25 @@ func c05R4(p *core.Program, r *core.Report) {
 			}
 			if truncCallWithLimit(st.Val, "Truncate", "MaxFieldChars", 0) != nil && !instrReaches(cs.Instr, st) {
 				okTr = true
+				// the truncation may depend on nothing but the value being there
+				for _, ce := range core.MayConds(st.Block()) {
+					bo, isBo := ce.Cond.(*ssa.BinOp)
+					if isBo && (bo.Op == token.NEQ || bo.Op == token.EQL) && (core.IsNilConst(bo.X) || core.IsNilConst(bo.Y)) {
+						other := bo.X
+						if core.IsNilConst(bo.X) {
+							other = bo.Y
+						}
+						if canon(other) == canon(val) {
+							continue
+						}
+					}
+					extraCond = canonShort(ce.Cond) + " at " + p.Pos(ce.If.Pos())
+				}
 			}
 		})
 		r.Check(okTr, "R4", core.FuncName(cs.Caller)+"/FieldValues.Set-truncated", p.Pos(cs.Pos()), "value.Text = Truncate(_, Options().MaxFieldChars) before the store", "a field value is stored without truncating its text to MaxFieldChars")
+		r.Check(extraCond == "", "R4", core.FuncName(cs.Caller)+"/FieldValues.Set-truncated-always", p.Pos(cs.Pos()), "the truncation depends only on the value being non-nil",
+			"the truncation of the field value's text also depends on "+extraCond+": every field value carries its text whatever the field's type, so the other values are stored at full length")
 	}
 	// (c) EvaluateTemplateText truncates on every returning path when asked to
 	ett := p.Method("flows/runs", "run", "EvaluateTemplateText")
@@ -700,4 +718,63 @@ func c05R4(p *core.Program, r *core.Report) {
 
 func constantInt(c *types.Const) (int64, bool) {
 	return constInt64(c.Val())
+}
+
+// ---------------------------------------------------------------------------------------------- R7
+
+var c05VarIndexAllowed = map[string]string{
+	"(*flows/runs.run).PathLocation/index#1": "r.Path()[len(r.Path())-1] after the `== nil` test: a run's path is nil until its first step (NewRun does not set it) and grows by append in CreateStep only (the companion obligation run.path/nil-or-non-empty checks exactly that); ReadRun's make(len(path)) is empty only for a run that never visited a node, and PathLocation is asked only for the session's waiting or current run",
+}
+var c05IndexAllowed = map[string]string{}
+
+func c05R7(p *core.Program, r *core.Report) {
+	r.Rule("R7", "no index panics in the engine loop: every constant or computed index / slice bound in flows/engine and flows/runs is within the length of the value it indexes on every path (same analysis as C04/R6, R7), or listed")
+	var fns []*ssa.Function
+	for _, fn := range p.ModuleFunctions() {
+		rel := core.RelPkg(core.FuncPkgPath(fn))
+		if (rel == "flows/engine" || rel == "flows/runs") && !p.IsTestFile(fn.Pos()) {
+			fns = append(fns, fn)
+		}
+	}
+	// companion of the listed PathLocation entry: who writes run.path, and what
+	if pf := p.FieldOf("flows/runs", "run", "path"); pf == nil {
+		r.Errorf("run.path not found")
+	} else {
+		// only needed while PathLocation relies on the nil test (a length test would be proven by the index analysis)
+		needed := false
+		if pl := p.Method("flows/runs", "run", "PathLocation"); pl != nil {
+			for _, site := range varIndexSites(pl) {
+				if miss, _ := decideVarIdx(site); miss != "" {
+					needed = true
+				}
+			}
+		} else {
+			r.Errorf("run.PathLocation not found")
+		}
+		nw := 0
+		for _, w := range p.FieldWrites(pf) {
+			if p.IsTestFile(w.Instr.Pos()) {
+				continue
+			}
+			nw++
+			if !needed {
+				r.OK("R7", core.FuncName(w.Fn)+"->run.path/nil-or-non-empty", p.Pos(w.Instr.Pos()), "not needed: PathLocation tests the length of the path")
+				continue
+			}
+			isAppend := false
+			if w.Val != nil {
+				if c, ok := core.StripConv(w.Val).(*ssa.Call); ok {
+					if bi, ok := c.Call.Value.(*ssa.Builtin); ok && bi.Name() == "append" && len(c.Call.Args) == 2 {
+						isAppend = true
+					}
+				}
+			}
+			fnName := rootFn(w.Fn).Name()
+			r.Check(isAppend || fnName == "ReadRun", "R7", core.FuncName(w.Fn)+"->run.path/nil-or-non-empty", p.Pos(w.Instr.Pos()), map[bool]string{true: "append of a step", false: "the reader"}[isAppend],
+				"run.path is set to something that is neither nil nor the result of appending a step: PathLocation tells `no steps yet` by `Path() == nil` and then reads Path()[len-1], so a non-nil empty path panics with index -1 (when the step limit is hit on the first node of a freshly entered flow)")
+		}
+		r.Require("run_path_writers", nw, 2)
+	}
+	r.Count("engine_const_index_sites", constIndexRule(p, r, fns, "R7", c05IndexAllowed, false))
+	r.Count("engine_variable_index_sites", varIndexRule(p, r, fns, "R7", c05VarIndexAllowed))
 }
